@@ -117,7 +117,7 @@ func valueClass(c byte) string {
 
 // patternClass describes the structural situation at the first failing position p.
 func patternClass(cs *Case, slots [3]slot, p int) string {
-	pats := [3]string{cs.R, cs.A, cs.B}
+	pats := [3]string{cs.effR(), cs.A, cs.B}
 	// operands that share the index space of the result
 	res := slots[0]
 	if res.kind == 0 {
@@ -159,7 +159,7 @@ func patternClass(cs *Case, slots [3]slot, p int) string {
 		return "-"
 	}
 	if slots[0].kind == 'v' || slots[0].kind == 'm' {
-		return "recv-" + letterClass(cs.R[p])
+		return "recv-" + letterClass(pats[0][p])
 	}
 	if slots[0].kind == 's' {
 		return "recv-scalar"
@@ -212,6 +212,10 @@ func judge(cs *Case, t *tinfo, ex *expect) verdict {
 		return key
 	}
 	o := run(cs, t)
+	effR := cs.effR()
+	if o.noConc {
+		return verdict{outcome: "no-concrete-method"}
+	}
 	anyUnd := false
 	for _, j := range ex.res {
 		anyUnd = anyUnd || j.und
@@ -268,7 +272,7 @@ func judge(cs *Case, t *tinfo, ex *expect) verdict {
 		}
 		var x, y float64
 		val := func(i int) (float64, float64) {
-			return roundTo(o.rtyp, letterVal(cs.R[i])), roundTo(o.rtyp, letterVal(cs.A[i]))
+			return roundTo(o.rtyp, letterVal(effR[i])), roundTo(o.rtyp, letterVal(cs.A[i]))
 		}
 		decides := func(i int) bool {
 			x, y := val(i)
@@ -292,7 +296,7 @@ func judge(cs *Case, t *tinfo, ex *expect) verdict {
 				a := []byte(cs.A)
 				for q := range a {
 					if q != i {
-						a[q] = sameValueLetter(cs.R[q], cs.Stor[1])
+						a[q] = sameValueLetter(effR[q], cs.Stor[1])
 					}
 				}
 				cp.A = string(a)
@@ -323,7 +327,7 @@ func judge(cs *Case, t *tinfo, ex *expect) verdict {
 				case d == cs.eps():
 					rel = "diff=eps"
 				}
-				key = fmt.Sprintf("%s|%s|recv-%s,operand-%s|%s|%s", cs.Op, storClass(slots, cs.Stor, false), valueClass(cs.R[p]), valueClass(cs.A[p]), rel, sym)
+				key = fmt.Sprintf("%s|%s|recv-%s,operand-%s|%s|%s", cs.Op, storClass(slots, cs.Stor, false), valueClass(effR[p]), valueClass(cs.A[p]), rel, sym)
 			}
 			if cs.eps() == 0 {
 				key += "|eps=0"
@@ -359,6 +363,10 @@ func judge(cs *Case, t *tinfo, ex *expect) verdict {
 				return verdict{fail: true, key: mk(p, "deriv-"+sym), what: fmt.Sprintf("element %d: value %v ok, %s differs: got d=%v h=%v, expected d=%v h=%v", p, g.v, which, g.d, g.h, e.d, e.h)}
 			}
 		}
+	}
+	if o.view != "" {
+		// the random-access read is right, a consumer that iterates sees something else
+		return verdict{fail: true, key: mk(o.viewPos, "view:"+o.viewKind), what: o.view}
 	}
 	out := "ok"
 	if ex.isB {
@@ -425,6 +433,10 @@ func rankOf(cs *Case, ti int) int64 {
 	}
 	r := int64(sz)*1000000 + int64(len(cs.R)+len(cs.A)+len(cs.B))*50000 + int64(nz)*2000 + int64(ex)*500 + int64(strings.Count(cs.Stor, "s")+strings.Count(cs.Stor, "c"))*100 + int64(ti)
 	r += int64(strings.Count(cs.Hist, ",")+len(cs.Hist)) * 10000
+	r += int64(strings.Count(cs.Life, ",")+len(cs.Life)) * 10000
+	if cs.Conc {
+		r += 60
+	}
 	if cs.Var {
 		r += 50
 	}
@@ -450,12 +462,16 @@ func dryRun(c *vf.Ctx, fams []*family) {
 				int64(len(patterns(f.slots[1], stor[1], f.levels[1], f.varM))) *
 				int64(len(patterns(f.slots[2], stor[2], f.levels[2], f.varM))) * int64(len(f.hists()))
 			var runs int64
-			for _, t := range f.types {
+			for _, t := range f.typesFor(stor) {
 				runs += int64(len(f.ctypesFor(t, stor)))
 			}
 			n *= runs
 			lab := f.op
 			switch {
+			case f.lifeLen > 0:
+				lab = "life:" + lab
+			case f.conc:
+				lab = "concrete:" + lab
 			case f.histSlot >= 0:
 				lab = "history:" + lab
 			case f.needC || f.ctOp:
@@ -466,6 +482,10 @@ func dryRun(c *vf.Ctx, fams []*family) {
 			}
 			c.Count("dry:"+lab, n)
 			switch {
+			case f.lifeLen > 0:
+				c.Count("dry:TOTAL-life", n)
+			case f.conc:
+				c.Count("dry:TOTAL-concrete", n)
 			case f.histSlot >= 0:
 				c.Count("dry:TOTAL-history", n)
 			case f.needC || f.ctOp:
@@ -577,6 +597,12 @@ func fullKey(cs *Case, key string) string {
 	if cs.Hist != "" {
 		key += "|after=" + histClass(cs.Hist)
 	}
+	if cs.Life != "" {
+		key += "|receiver-life=" + lifeClass(cs.Life)
+	}
+	if cs.Conc {
+		key += "|concrete-method"
+	}
 	return key + "|elem=" + cs.Elem
 }
 
@@ -591,6 +617,18 @@ func minimalHistory(cs *Case, t *tinfo, ex *expect) (string, verdict) {
 		}
 	}
 	return cs.Hist, verdict{}
+}
+
+// minimalLife: the same for a receiver life (the expectation depends on the life).
+func minimalLife(cs *Case, t *tinfo) (string, verdict) {
+	for _, l := range subLives(cs.Life) {
+		cp := *cs
+		cp.Life = l
+		if v := judge(&cp, t, expected(&cp, t.class)); v.fail {
+			return l, v
+		}
+	}
+	return cs.Life, verdict{}
 }
 
 func explore(c *vf.Ctx) {
@@ -629,6 +667,10 @@ func explore(c *vf.Ctx) {
 		hists := f.hists()
 		group := "base"
 		switch {
+		case f.lifeLen > 0:
+			group = "receiver-life"
+		case f.conc:
+			group = "concrete-entry-point"
 		case f.histSlot >= 0:
 			group = "operand-history"
 		case f.needC || f.ctOp:
@@ -648,7 +690,7 @@ func explore(c *vf.Ctx) {
 				label string
 			}
 			var runs []runT
-			for _, t := range f.types {
+			for _, t := range f.typesFor(stor) {
 				for _, ct := range f.ctypesFor(t, stor) {
 					r := runT{t: t, ct: ct, label: t.name}
 					if ct != nil {
@@ -670,14 +712,19 @@ func explore(c *vf.Ctx) {
 					}
 					c.Guard(fmt.Sprintf("%s|%s", f.op, stor), int64(fi), map[string]any{"op": f.op, "dims": f.dims, "storage": stor, "recv": r, "a": a})
 					for _, b := range pb {
-						base := Case{Op: f.op, Var: f.varM, Dims: f.dims, Stor: stor, R: r, A: a, B: b}
+						base := Case{Op: f.op, Var: f.varM, Dims: f.dims, Stor: stor, R: r, A: a, B: b, Conc: f.conc}
 						if f.varM && base.nvars() == 0 {
 							continue // identical to the case without variables
 						}
 						var exs [3]*expect // per class
 						for _, h := range hists {
 							cs := base
-							cs.Hist = h
+							if f.lifeLen > 0 {
+								cs.Life = h
+								exs = [3]*expect{} // the expectation depends on the life
+							} else {
+								cs.Hist = h
+							}
 							fails := map[string]*failure{}
 							var compTypes []string // runs that did not end in an accepted panic
 							for ri, rn := range runs {
@@ -714,9 +761,17 @@ func explore(c *vf.Ctx) {
 											cp.Hist, v = mh, mv
 										}
 									}
+									if cs.Life != "" {
+										if ml, mv := minimalLife(&cs, t); ml != cs.Life {
+											cp.Life, v = ml, mv
+										}
+									}
 									fk := v.key
 									if cp.Hist != "" {
 										fk += "|after=" + histClass(cp.Hist)
+									}
+									if cp.Life != "" {
+										fk += "|receiver-life=" + lifeClass(cp.Life)
 									}
 									fl := fails[fk]
 									if fl == nil {
@@ -727,8 +782,14 @@ func explore(c *vf.Ctx) {
 									outcomes[f.op+"|FAIL"]++
 								} else {
 									out := v.outcome
-									if h != "" {
+									switch {
+									case h != "" && f.lifeLen > 0:
+										out += "|after-receiver-life"
+									case h != "":
 										out += "|after-history"
+									}
+									if f.conc {
+										out += "|concrete-method"
 									}
 									outcomes[f.op+"|"+out]++
 									if v.compared > 0 || (v.outcome != "" && strings.HasPrefix(v.outcome, "ok:equals")) {
@@ -751,7 +812,11 @@ func explore(c *vf.Ctx) {
 							flush()
 						}
 						if idx%4001 == 17 && b == pb[len(pb)-1] {
-							base.Hist = hists[len(hists)-1]
+							if f.lifeLen > 0 {
+								base.Life = hists[len(hists)-1]
+							} else {
+								base.Hist = hists[len(hists)-1]
+							}
 							c.Sample(map[string]any{"case": base.String(), "runs_per_case": len(runs), "histories": len(hists)})
 						}
 					}
